@@ -333,3 +333,121 @@ def c19_extract(d):
   res = _json.loads(line[0][7:])
   return {"status": "confirmed" if res["reported"] != res["macs"] else "refuted", "observed": res,
           "expected": "number_of_operations == multiply-accumulate operations of the layer"}
+
+
+@replayer("c20_prefix")
+def c20_prefix(d):
+  """The real AutoQKHyperModel._get_quantizer for a layer 'pre_head' under limit {'Dense': [L]*3, 'head': [16]*3}: the key
+  'head' occurs inside the name but not at its start, so the class limit L must govern every tuner outcome and the tuner
+  must be asked under the layer's own name."""
+  from native import shims
+  shims.install_keras_tuner_stub()
+  import qkeras.autoqkeras.autoqkeras_internal as A
+  w = d.get("witness") or {}
+  rep = w.get("__replay__") or {}
+  head = rep.get("head", "kernel")
+  lim = int(w.get("limit_bits", 4))
+  cfg = {
+      "kernel": {"binary": 1, "ternary": 2, "quantized_bits(4,0,1)": 4, "quantized_bits(8,0,1)": 8},
+      "bias": {"quantized_bits(4,0,1)": 4, "quantized_po2(4,8)": 4, "quantized_bits(8,3,1)": 8},
+      "activation": {"binary": 1, "quantized_relu(3,1)": 3, "quantized_relu(6,2)": 6, "quantized_relu(16,8)": 16},
+  }
+  for i in range(4):
+    hm = A.AutoQKHyperModel.__new__(A.AutoQKHyperModel)
+    hm.limit, hm.groups, hm.quantization_config = {"Dense": [lim] * 3, "head": [16] * 3}, {}, cfg
+    hp = _EnumHP([i])
+    name, bits = hm._get_quantizer(hp, "pre_head_" + head, "pre_head", "Dense")
+    asked = [c[0] for c in hp.calls] + [k for k in hp.picked]
+    if d["clause"] == "class_limit_governs" and bits > lim:
+      return {"status": "confirmed", "observed": {"returned": name, "bits": bits, "class_limit": lim}}
+    if d["clause"] == "own_choice_not_group" and ("head" in hm.groups or not all(a.startswith("pre_head_") for a in asked)):
+      return {"status": "confirmed", "observed": {"groups": list(hm.groups), "tuner_names": asked}}
+  if d["clause"] not in ("class_limit_governs", "own_choice_not_group"):
+    return {"status": "unsupported", "detail": "clause %s" % d["clause"]}
+  return {"status": "refuted", "observed": {"outcomes_tried": 4}}
+
+
+@replayer("c19_energy")
+def c19_energy(d):
+  """The real qenergy.energy_estimate on the six-layer duck-typed model of the contract, with the witness' operator
+  parameters; memory_read/write/parameter energies replaced by the witness' values (same contracts as on the symbolic
+  side); every entry and the total are recomputed here from the documented formulas."""
+  from qkeras.qtools.qenergy import qenergy as E
+  from qkeras.qtools.quantized_operators.quantizer_impl import IQuantizer
+  w = d.get("witness") or {}
+  fp_acc = "fp32acc" in d["case"]
+  fv = lambda n, dflt=0.0: float(Fraction(str(w.get(n, dflt))))
+  iv = lambda n, dflt=1: int(w.get(n, dflt))
+
+  def iq(bits, fp=False):
+    q = IQuantizer()
+    q.bits, q.is_floating_point = bits, fp
+    return q
+
+  class Op(object):
+    def __init__(self, pfx, mode):
+      self.gate_factor, self.gate_bits, self.output, self._m = fv(pfx + "_gate_factor", 1), iv(pfx + "_gate_bits"), iq(iv(pfx + "_out_bits")), mode
+    def implemented_as(self):
+      return self._m
+
+  class Acc(object):
+    def __init__(self, q):
+      self.output = q
+  mk = lambda cls, name, shape: type(cls, (object,), {})()
+  shp = (None, 4, 4, 3)
+  L = {}
+  for cls, name, ish in (("QDense", "d0", (None, 8)), ("QActivation", "a0", (None, 8)), ("Add", "add0", [shp, shp, shp]),
+                         ("AveragePooling2D", "p0", shp), ("QBatchNormalization", "bn0", shp), ("Flatten", "fl0", shp)):
+    o = type(cls, (object,), {})()
+    o.name, o.input_shape = name, ish
+    L[name] = o
+  cnt = {n: iv("count_" + n, 1) for n in ("d0", "a0", "add0", "p0", "bn0")}
+  mult, merge, div, bmul = Op("mult", "mul"), Op("merge", "add"), Op("div", "shifter"), Op("bnmul", "mul")
+  acc = Acc(iq(32, True) if fp_acc else iq(iv("acc_bits")))
+  pacc = Acc(iq(iv("pool_acc_bits")))
+  item = lambda n, **k: dict({"input_quantizer_list": [iq(8)], "operation_count": cnt[n], "output_shapes": shp,
+                             "output_quantizer": iq(8)}, **k)
+  m = {L["d0"]: item("d0", multiplier=mult, accumulator=acc), L["a0"]: item("a0"),
+       L["add0"]: dict(item("add0", multiplier=merge), input_quantizer_list=[iq(8), iq(8), iq(8)]),
+       L["p0"]: item("p0", accumulator=pacc),
+       L["bn0"]: item("bn0", internal_divide_quantizer=div, internal_multiplier=bmul)}
+  model = type("Model", (object,), {})()
+  model.layers = [L["d0"], L["a0"], L["fl0"], L["add0"], L["p0"], L["bn0"]]
+  seq = {"rd": [fv("rd_%d" % i) for i in range(7)], "wr": [fv("wr_%d" % i) for i in range(5)], "par": [fv("par_%d" % i) for i in range(5)]}
+  pos = {"rd": 0, "wr": 0, "par": 0}
+
+  def stub(kind):
+    def f(*a, **k):
+      v = seq[kind][pos[kind]] if pos[kind] < len(seq[kind]) else 0.0
+      pos[kind] += 1
+      return v
+    return f
+  old = (E.memory_read_energy, E.memory_write_energy, E.parameter_read_energy)
+  E.memory_read_energy, E.memory_write_energy, E.parameter_read_energy = stub("rd"), stub("wr"), stub("par")
+  try:
+    res = E.energy_estimate(model, {"output_layers": [L["bn0"]], "input_layers": [L["d0"]], "layer_data_type_map": m},
+                            "dram", "sram", 0, True)
+  finally:
+    E.memory_read_energy, E.memory_write_energy, E.parameter_read_energy = old
+  p = lambda v: max(v, 0.0)
+  add = lambda b: p(0.003125 * b)
+  mul = lambda b: p(0.002994791667 * b * b + 0.001041666667 * b)
+  acc_cost = 0.9 if fp_acc else add(acc.output.bits)
+  ops = {"d0": cnt["d0"] * (mult.gate_factor * mul(mult.gate_bits) + acc_cost), "a0": 0.0,
+         "add0": 2 * cnt["add0"] * merge.gate_factor * add(merge.gate_bits), "p0": cnt["p0"] * add(pacc.output.bits),
+         "bn0": (div.gate_factor * add(div.gate_bits) + bmul.gate_factor * mul(bmul.gate_bits)) * cnt["bn0"]}
+  order, n_in = ["d0", "a0", "add0", "p0", "bn0"], {"d0": 1, "a0": 1, "add0": 3, "p0": 1, "bn0": 1}
+  rd = iter(seq["rd"])
+  bad, tot = [], 0.0
+  for i, n in enumerate(order):
+    exp = {"inputs": sum(next(rd) for _ in range(n_in[n])), "outputs": seq["wr"][i], "parameters": seq["par"][i], "op_cost": ops[n]}
+    tot += sum(exp.values())
+    for k, v in exp.items():
+      got = res.get(n, {}).get("energy", {}).get(k)
+      if got is None or abs(got - v) > 0.0051 or got < 0:
+        bad.append({"layer": n, "entry": k, "reported": got, "documented": round(v, 4)})
+  if not (res.get("total_cost", -1) <= tot + 1e-6 < res.get("total_cost", -1) + 1 + 1e-6):
+    bad.append({"total_cost": res.get("total_cost"), "sum_of_entries": round(tot, 4)})
+  if set(res) - {"total_cost"} != set(order):
+    bad.append({"layers_reported": sorted(set(res) - {"total_cost"})})
+  return {"status": "confirmed" if bad else "refuted", "observed": bad[:4] if bad else {"entries_checked": 20}}
